@@ -153,7 +153,27 @@ def frame_cases(prop, seed=0):
         out.append(_g("toqito.matrix_props", "majorizes", [dict(kind="array", v=[3.0, 1.0, 0.0]), dict(kind="array", v=[2.0, 1.0, 1.0])], "vectors"))
         out.append(_g("toqito.state_props", "is_mutually_orthogonal", [dict(kind="kets", d=3, n=2, seed=s, column=False)], "kets"))
         out.append(_g("toqito.matrix_props", "is_orthonormal", [dict(kind="kets", d=3, n=2, seed=s, column=False)], "kets"))
+    if prop == "C17":
+        K = lambda v: dict(kind="const", v=v)  # noqa: E731
+        for mod, fn, argsets in (
+            ("toqito.states", "basis", [[3, 1]]), ("toqito.states", "bb84", [[]]), ("toqito.states", "bell", [[0], [3]]), ("toqito.states", "brauer", [[2, 2]]),
+            ("toqito.states", "breuer", [[2, 0.3]]), ("toqito.states", "chessboard", [[[1, 2, 3, 4, 5, 6], 7, 8]]), ("toqito.states", "dicke", [[3, 1], [3, 2, True]]),
+            ("toqito.states", "domino", [[0], [4]]), ("toqito.states", "gen_bell", [[1, 1, 3]]), ("toqito.states", "ghz", [[2, 3], [3, 2]]), ("toqito.states", "gisin", [[0.5, 1.0]]),
+            ("toqito.states", "horodecki", [[0.5, [3, 3]], [0.5, [2, 4]]]), ("toqito.states", "isotropic", [[3, 0.3]]), ("toqito.states", "max_entangled", [[3], [2, False, False]]),
+            ("toqito.states", "max_mixed", [[3]]), ("toqito.states", "mutually_unbiased_basis", [[3], [5]]), ("toqito.states", "pusey_barrett_rudolph", [[2, 0.5]]),
+            ("toqito.states", "singlet", [[2]]), ("toqito.states", "tile", [[0], [3]]), ("toqito.states", "trine", [[]]), ("toqito.states", "w_state", [[3]]),
+            ("toqito.states", "werner", [[2, 0.3], [2, [0.3]], [2, [0.1, 0.2, 0.1, 0.0, 0.1]]]),
+            ("toqito.matrices", "cnot", [[]]), ("toqito.matrices", "cyclic_permutation_matrix", [[4], [4, 2]]), ("toqito.matrices", "fourier", [[3]]), ("toqito.matrices", "gell_mann", [[3]]),
+            ("toqito.matrices", "gen_gell_mann", [[0, 1, 3], [1, 1, 3]]), ("toqito.matrices", "gen_pauli", [[1, 1, 3]]), ("toqito.matrices", "gen_pauli_x", [[3]]), ("toqito.matrices", "gen_pauli_z", [[3]]),
+            ("toqito.matrices", "hadamard", [[1], [2], [3]]), ("toqito.matrices", "pauli", [["X"], [2], [["X", "Z"]]]), ("toqito.matrices", "standard_basis", [[3], [2, True]]),
+        ):
+            for k, a in enumerate(argsets):
+                out.append(_g(mod, fn, [K(x) for x in a], "args%d" % k))
+        # higher orders after lower ones (a constructor that builds on memoised smaller instances)
+        out.append(_g("toqito.matrices", "hadamard", [K(3)], "after-lower-orders") | {})
     if prop == "C18":
+        for fn, a in (("symmetric_projection", [2, 2]), ("symmetric_projection", [2, 3]), ("antisymmetric_projection", [2, 2]), ("antisymmetric_projection", [3, 3]), ("symmetric_projection", [2, 2, True]), ("antisymmetric_projection", [3, 2, True])):
+            out.append(_g("toqito.perms", fn, [dict(kind="const", v=x) for x in a], "d=%d,p=%d%s" % (a[0], a[1], ",partial" if len(a) > 2 else ""), tol=1e-7))
         out.append(_g("toqito.perms", "perm_sign", [dict(kind="const", v=[3, 1, 2, 4])], "list"))
         out.append(_g("toqito.perms", "perm_sign", [dict(kind="array", v=[2, 1, 3])], "array"))
         out.append(_g("toqito.perms", "perfect_matchings", [dict(kind="array", v=[0, 1, 2, 3, 4, 5])], "array"))
